@@ -758,8 +758,11 @@ theorem inv_fire {c c' : Circ} {cal : Val → Option Bool} {i : Nat} {r : Res}
   split at h
   · simp at h
   · next hph =>
-    simp only [bne_iff_ne, ne_eq, Decidable.not_not] at hph
-    have hg : Good c := Or.inl hph
+    simp only [bne_iff_ne, ne_eq, Bool.and_eq_true, not_and, Decidable.not_not] at hph
+    have hg : Good c := by
+      by_cases h1 : c.phase = .running
+      · exact Or.inl h1
+      · exact Or.inr (hph h1)
     split at h
     · simp at h
     · next b hb =>
@@ -769,8 +772,7 @@ theorem inv_fire {c c' : Circ} {cal : Val → Option Bool} {i : Nat} {r : Res}
       · next t tev htm =>
         split at h
         · simp at h
-        · have hbok := hi.ok hg b hbm (Or.inl hph)
-          have hlen : i < c.blocks.length := by
+        · have hlen : i < c.blocks.length := by
             rcases List.getElem?_eq_some_iff.mp hb with ⟨hl, _⟩; exact hl
           have hb0 : ({ c with now := t, blocks := c.blocks.set i { b with dyn := { b.dyn with timer := none } } } : Circ).blocks[i]?
               = some { b with dyn := { b.dyn with timer := none } } := by
@@ -784,13 +786,15 @@ theorem inv_fire {c c' : Circ} {cal : Val → Option Bool} {i : Nat} {r : Res}
             · exact hi.valid hg x hx1
           · intro x hx hc
             rcases mem_set_key hi.nodup hb hx with rfl | ⟨hx1, _⟩
-            · exact ⟨DynOk_clear b.kind b.dyn hbok.1, hbok.2⟩
+            · have hbok := hi.ok hg b hbm hc
+              exact ⟨DynOk_clear b.kind b.dyn hbok.1, hbok.2⟩
             · exact hi.ok hg x hx1 hc
           · intro x hx hne hp hsy
             rcases mem_set_key hi.nodup hb hx with rfl | ⟨hx1, _⟩
             · exact absurd rfl hne
             · exact hi.synced hg x hx1 hp hsy
-          · intro hq
+          · intro hq hpb
+            have hbok := hi.ok hg b hbm (Or.inr hpb)
             obtain ⟨b1, hb1, hr⟩ := event_result h
             rw [hb0] at hb1
             simp only [Option.some.injEq] at hb1
